@@ -32,8 +32,8 @@ package command
 //@ func startScanEngine
 //@   props C16 C08 C12
 //@   observe context.WithCancel, Start, (*sync.WaitGroup).Add, (*sync.WaitGroup).Wait, cancel
-//@   entry row scan: [call context.WithCancel(ctx) as (c2, cf) ; call Add(_, 1) ; go startScanEngine$1(_, bind_lg, bind_c1, bind_en) ;
-//@                    call Start(engine, c2, bind_rng) as (done, errc) ; go startScanEngine$2(bind_cf2, bind_dn, bind_cfg) ;
-//@                    call Add(_, 1) ; go startScanEngine$3(_, bind_ec, bind_lg2) ; call Wait(_) ; call cancel()]
+//@   entry row scan: [call context.WithCancel(ctx) as (c2, cf) ; call Add(_, 1) ; go startScanEngine$1{logger: bind_lg, ctx: bind_c1, engine: bind_en} ;
+//@                    call Start(engine, c2, bind_rng) as (done, errc) ; go startScanEngine$2{cancel: bind_cf2, done: bind_dn, conf: bind_cfg} ;
+//@                    call Add(_, 1) ; go startScanEngine$3{errc: bind_ec, logger: bind_lg2} ; call Wait(_) ; call cancel()]
 //@                   when c1 == c2 && en == engine && lg == conf.logger && dn == done && cf2 == cf && cfg == conf && ec == errc && lg2 == conf.logger && ret == nil -> exit
 
